@@ -598,6 +598,10 @@ class TreeTensorNetwork(TreeStructure):
                                   axes=(node.open_legs, tensor_legs))
         # The leg ordering was not changed here
         self.tensors[node_id] = new_tensor
+        if self.orthogonality_center_id not in (None, node_id):
+            # A general operator destroys the isometry of a node that is not
+            # the orthogonality center, so the canonical form is lost.
+            self.orthogonality_center_id = None
 
     def change_node_identifier(self, new_node_id: str, old_node_id: str):
         """
